@@ -132,9 +132,10 @@ func linOfD(v ssa.Value, d int) Lin {
 }
 
 // Pred is a normalised branch predicate.
-//   ge:   L >= 0       eq: L == 0       ne: L != 0     (integers / big.Int order)
-//   same: A equals B (Pol) — byte/pointer/interface/string equality
-//   bool: atom is true (Pol)
+//
+//	ge:   L >= 0       eq: L == 0       ne: L != 0     (integers / big.Int order)
+//	same: A equals B (Pol) — byte/pointer/interface/string equality
+//	bool: atom is true (Pol)
 type Pred struct {
 	Kind string
 	L    Lin
@@ -403,17 +404,27 @@ type Want struct {
 
 func t(c int64, re string) wterm { return wterm{c, regexp.MustCompile(re)} }
 
-func wGE(desc string, k int64, ts ...wterm) Want { return Want{Kind: "ge", Terms: ts, K: k, Desc: desc} }
-func wEQ(desc string, k int64, ts ...wterm) Want { return Want{Kind: "eq", Terms: ts, K: k, Desc: desc} }
-func wNE(desc string, k int64, ts ...wterm) Want { return Want{Kind: "ne", Terms: ts, K: k, Desc: desc} }
+func wGE(desc string, k int64, ts ...wterm) Want {
+	return Want{Kind: "ge", Terms: ts, K: k, Desc: desc}
+}
+func wEQ(desc string, k int64, ts ...wterm) Want {
+	return Want{Kind: "eq", Terms: ts, K: k, Desc: desc}
+}
+func wNE(desc string, k int64, ts ...wterm) Want {
+	return Want{Kind: "ne", Terms: ts, K: k, Desc: desc}
+}
 func wSame(desc, a, b string) Want {
 	return Want{Kind: "same", A: regexp.MustCompile(a), B: regexp.MustCompile(b), Pol: true, Desc: desc}
 }
 func wDiffer(desc, a, b string) Want {
 	return Want{Kind: "same", A: regexp.MustCompile(a), B: regexp.MustCompile(b), Pol: false, Desc: desc}
 }
-func wTrue(desc, a string) Want  { return Want{Kind: "bool", A: regexp.MustCompile(a), Pol: true, Desc: desc} }
-func wFalse(desc, a string) Want { return Want{Kind: "bool", A: regexp.MustCompile(a), Pol: false, Desc: desc} }
+func wTrue(desc, a string) Want {
+	return Want{Kind: "bool", A: regexp.MustCompile(a), Pol: true, Desc: desc}
+}
+func wFalse(desc, a string) Want {
+	return Want{Kind: "bool", A: regexp.MustCompile(a), Pol: false, Desc: desc}
+}
 
 // matchTerms finds the sign s (±1, or only +1 when !allowFlip) such that the
 // found linear part equals s × the wanted one, matching atoms by regexp
